@@ -2,15 +2,17 @@
    PARTIAL.  Proved here: value-neutrality of the two declarative rules the
    ledger is proved to follow (C01: average-cost rule; C02: superficial-loss
    rule quantities), for restated rows and across an inserted split given as
-   one row per affiliate in any order.  NOT proved: the composition into one
-   statement about whole runs of the model (run exact h' vs run exact h):
+   one row per affiliate in any order; and, for WHOLE RUNS of the model, the
+   case where the split precedes every row (C15_whole_history_restated).
+   NOT proved: the whole-run statement for a split inserted at an arbitrary
+   position in the middle of a history (C15_full):
    that composition is checked on the implementation itself by the
    metamorphic part of the check (h vs h' for random positions / ratios /
    global or per-affiliate split rows).  C15_full below is the statement that
    is not proved. *)
 From Coq Require Import List NArith ZArith QArith Qcanon Bool Permutation.
 From ACB Require Import Base.Outcome Base.QcExtra Base.Arith Model.Tx Model.Ledger Model.Sfl Model.DeltaList
-     Spec.AvgCost Spec.SflRule Proofs.C02Scan Proofs.C15Scale.
+     Spec.AvgCost Spec.SflRule Proofs.C02Scan Proofs.C15Scale Proofs.C15Run.
 Import ListNotations.
 
 (* the full statement (one row per affiliate variant), kept visible *)
@@ -24,6 +26,24 @@ Definition C15_full : Prop :=
     run exact None (pre ++ post) = (ds, None) ->
     exists ds', run exact None (pre ++ splits ++ map (scale_tx f) post) = (ds', None) /\
                 Forall2 same_money ds (filter (fun d => negb (existsb (fun s => N.eqb (t_ri s) (t_ri (d_tx d)) && is_split (t_act (d_tx d))) splits)) ds').
+
+(* Whole runs of the model: restating EVERY share quantity (x f) and every
+   per-share amount (/ f) of a history, rows and opening position alike -
+   i.e. an a-for-b split taken before the first row - leaves every capital
+   gain, denied amount, cost base, generated adjustment and the outcome
+   (accepted / rejected at the same row for the same reason) unchanged; share
+   balances and ratio terms scale.  f > 0; no whole-number-only reverse
+   splits in the history (their fraction test is deliberately not scale-free). *)
+Theorem C15_whole_history_restated : forall f init txs,
+  (0 < f)%Qc -> Forall no_int_only txs ->
+  run exact (option_map (sc_status f) init) (map (scale_tx f) txs)
+  = let '(ds, o) := run exact init txs in (map (sc_delta f) ds, o).
+Proof. exact C15Run.run_sc. Qed.
+Check C15_whole_history_restated : forall f init txs,
+  (0 < f)%Qc -> Forall no_int_only txs ->
+  run exact (option_map (sc_status f) init) (map (scale_tx f) txs)
+  = let '(ds, o) := run exact init txs in (map (sc_delta f) ds, o).
+Print Assumptions C15_whole_history_restated.
 
 (* Restating a holding and a row (shares x f, per-share amounts / f) leaves
    the new total cost and the gain unchanged and scales the shares. *)
